@@ -200,10 +200,14 @@ func (m *UnboundedSegmentedMailbox) Dequeue() *ReceiveContext {
 		if next == nil {
 			return nil
 		}
-		// recycle old head
+		// retire old head. It is deliberately NOT returned to segmentPool: a
+		// producer may still hold it from a stale m.tail.Load() and reserve a
+		// slot on it after another producer has taken it out of the pool and is
+		// resetting it in newSegment, which loses that message and leaves a nil
+		// slot the consumer can never get past. Left to the garbage collector,
+		// a retired segment stays full, so a stale producer just retries.
 		m.head.Store(next)
 		seg.next.Store(nil)
-		segmentPool.Put(seg)
 		seg = next
 	}
 }
